@@ -165,7 +165,10 @@ impl<'xml> Deserializer<'xml> {
                     return Ok(());
                 }
                 DeEvent::End(_) => return Err(unexpected_end()),
-                DeEvent::Text(_) => continue,
+                DeEvent::Text(t) => {
+                    ensure_whitespace(&t)?;
+                    continue;
+                }
                 DeEvent::Eof => return Err(unexpected_eof()),
             }
         }
@@ -182,7 +185,10 @@ impl<'xml> Deserializer<'xml> {
                     }
                     return Ok(());
                 }
-                DeEvent::Text(_) => continue,
+                DeEvent::Text(t) => {
+                    ensure_whitespace(&t)?;
+                    continue;
+                }
                 DeEvent::Eof => return Err(unexpected_eof()),
             }
         }
@@ -194,7 +200,10 @@ impl<'xml> Deserializer<'xml> {
             match self.next_event()? {
                 DeEvent::Start(_) => return Err(unexpected_start()),
                 DeEvent::End(_) => return Err(unexpected_end()),
-                DeEvent::Text(_) => continue,
+                DeEvent::Text(t) => {
+                    ensure_whitespace(&t)?;
+                    continue;
+                }
                 DeEvent::Eof => return Ok(()),
             }
         }
@@ -221,7 +230,8 @@ impl<'xml> Deserializer<'xml> {
                     self.expect_end(name.as_ref())?;
                     return Ok(ans);
                 }
-                DeEvent::Text(_) => {
+                DeEvent::Text(t) => {
+                    ensure_whitespace(&t)?;
                     self.consume_peeked();
                 }
                 DeEvent::End(_) | DeEvent::Eof => {
@@ -247,7 +257,8 @@ impl<'xml> Deserializer<'xml> {
 
                     continue;
                 }
-                DeEvent::Text(_) => {
+                DeEvent::Text(t) => {
+                    ensure_whitespace(&t)?;
                     self.consume_peeked();
                     continue;
                 }
@@ -352,6 +363,16 @@ const fn unexpected_tag_name() -> DeError {
 /// helper
 const fn unexpected_start() -> DeError {
     DeError::UnexpectedStart
+}
+
+/// Character data between elements, or around the root element, is skipped:
+/// it may only be whitespace (indentation), anything else does not fit the type.
+fn ensure_whitespace(text: &BytesText<'_>) -> DeResult {
+    if text.iter().all(u8::is_ascii_whitespace) {
+        Ok(())
+    } else {
+        Err(DeError::InvalidContent)
+    }
 }
 
 impl<'xml> DeserializeContent<'xml> for bool {
